@@ -294,3 +294,38 @@ def teardown(chk, repo):
         "os.remove(programs)", f))
     chk.ob("R23.4", sym, "the last leaver removes the pinned table and the "
            "shared lock files", ok, f, "in the else of the rmdir")
+    shared_files(chk, repo, "R23.4")
+
+
+def shared_files(chk, repo, rule):
+    """the shared mailbox-counter and FMMU lock files outlive every
+    participant but the last: their removal is reachable only through the
+    success edge of os.rmdir(lockdir) (also used by C15)"""
+    sym = C + ".run"
+    f = repo.func(sym)
+    cfg = CFG(f, raises="call")
+    rmd = [n for n in cfg.nodes if n.expr is not None and find(
+        "os.rmdir(lockdir)", n.expr)]
+    need(rmd, f"{sym}: os.rmdir(lockdir) not found")
+    rids = {n.id for n in rmd}   # the finally block is laid out per exit
+    rem = [n for n in cfg.nodes if n.expr is not None and (
+        find("self.mbx_lock_file.remove()", n.expr) or find(
+            "self.fmmu_lock_file.remove()", n.expr))]
+    need(rem, f"{sym}: removal of the shared lock files not found")
+    # reachable from the entry without taking rmdir's success edge?
+    free = cfg.reach_edges(cfg.entry, lambda a, b, lab: not (
+        a.id in rids and lab != "exc"))
+    by_stmt = {}
+    for n in rem:
+        by_stmt.setdefault(id(n.stmt), []).append(n)
+    for group in by_stmt.values():
+        n = group[0]
+        ok = not any(x in free for x in group)
+        chk.ob(rule, sym, f"`{unparse(n.expr)[:40]}` runs only when this "
+               f"participant was the last one", ok, n.expr,
+               "reachable without os.rmdir(lockdir) having succeeded: a "
+               "participant that leaves while others stay unlinks the file "
+               "they keep using; the next newcomer creates a fresh one, "
+               "with counters at zero and an empty FMMU map" if not ok else
+               "in the else branch of the rmdir attempt")
+
